@@ -142,7 +142,9 @@ func genC06(g engine.G) *engine.Case {
 	var sc *engine.Scenario
 	o := engine.DefaultFuncOpts()
 	o.AllowOnce, o.AllowPosRepeat, o.FailP = true, true, 10
-	switch g.Int(0, 6) {
+	switch g.Int(0, 7) {
+	case 7:
+		sc = engine.GenWide(g, o)
 	case 6:
 		// labels containing "/" + type strings, and non-identifier names
 		sc = engine.GenHostile(g, o)
